@@ -501,3 +501,38 @@ prop("C16",
      unverified_surroundings=["loopy code generation and execution for "
                               "parametric sizes (shape_to_scalar_expression, "
                               "kernel value arguments)"])
+
+prop("C17",
+     level="exploration",
+     level_text=(
+         "For each listed program (multi-output DAGs with sharing, stored "
+         "intermediates, reductions; 2- and 3-rank halo exchanges in one and "
+         "two rounds) the real generators, the partitioner and the tag "
+         "numbering are interpreted while every set/frozenset yields its "
+         "elements in an adversarially chosen order: the generated Python "
+         "source, the loopy instructions/arguments/temporaries/domains, the "
+         "output order, the partition description, the contributions to the "
+         "collectives and the tag numbers must equal the reference run's. "
+         "Exhaustive over the permutations of each dynamic iteration site "
+         "(one site permuted per path), bounded in the programs."),
+     level_note=(
+         "Not a proof for all programs: the programs are a finite list. "
+         "Order-dependence that needs two sites permuted at once is not "
+         "explored. Object addresses (id) and global counters are not "
+         "varied; id() is used in the anchored modules only as a cache key "
+         "(survey in DESIGN.md)."),
+     technique="contract-based: 2-safety postcondition (result equals the "
+               "reference run) checked by interpreting the real source under "
+               "an adversarial set-iteration-order model -- bounded stand-in, "
+               "not a proof",
+     design_ref="DESIGN.md §6 C17",
+     explanation="see contracts/c17_determinism.py",
+     structural_bound="listed programs; all permutations of sets of <= 4 "
+                      "elements (rotations, reversal, adjacent swaps beyond), "
+                      "one site per path",
+     trusted_base=["loopy (make_kernel, add_and_infer_dtypes, ...) run "
+                   "natively: its own determinism is assumed",
+                   "fake MPI collectives (pyvc/fakempi.py)"],
+     assumptions=["natives not classified as order-revealing treat set "
+                  "arguments order-insensitively (listed in evidence)"],
+     unverified_surroundings=["loopy's C code generation", "mpi4py"])
